@@ -416,6 +416,11 @@ func blockIDOf(bid int64) types.BlockID {
 	if bid < 0 {
 		return types.BlockID{}
 	}
+	if bid >= 256 { // 256 + 4*h + p: block hash h, part-set header p (same block hash, other parts)
+		h := fixed(0xFF)
+		h[1] = byte((bid - 256) / 4)
+		return types.BlockID{Hash: h, PartSetHeader: types.PartSetHeader{Total: 1, Hash: fixed(0xB0 + byte((bid-256)%4))}}
+	}
 	h := fixed(0xAA)
 	h[0] = byte(bid)
 	return types.BlockID{Hash: h, PartSetHeader: types.PartSetHeader{Total: 1, Hash: fixed(0xBB)}}
@@ -436,7 +441,7 @@ func parseVote(tok string) (*types.Vote, bool) {
 		n[i] = v
 	}
 	addr, ok := addrBytes(f[3])
-	if !ok || n[4] > 255 {
+	if !ok || n[4] > 600 || (n[4] > 200 && n[4] < 256) {
 		return nil, false
 	}
 	v := &types.Vote{
@@ -555,8 +560,9 @@ func (c *chain) buildLCA(m map[string]string) (*types.LightClientAttackEvidence,
 	hd.Time = tm(cft)
 	round := c.commit[baseH-1].Round
 	type cv struct {
-		ki    int
+		ki    int // key the member signs with (its public key in the set)
 		power int64
+		aki   int // key whose ADDRESS the member carries (-1: its own)
 	}
 	var cvs []cv
 	ownVals := func(h int64) bool {
@@ -565,7 +571,7 @@ func (c *chain) buildLCA(m map[string]string) (*types.LightClientAttackEvidence,
 			if !ok || v.addr != v.pk {
 				return false
 			}
-			cvs = append(cvs, cv{ki, v.power})
+			cvs = append(cvs, cv{ki, v.power, -1})
 		}
 		return true
 	}
@@ -575,15 +581,27 @@ func (c *chain) buildLCA(m map[string]string) (*types.LightClientAttackEvidence,
 		cvs = nil
 		for _, v := range c.blkAt(common).vals {
 			if ki, ok := keyIdx(v.pk); ok && v.addr == v.pk {
-				cvs = append(cvs, cv{ki, v.power})
+				cvs = append(cvs, cv{ki, v.power, -1})
 			}
 		}
-		cvs = append(cvs, cv{900, 1}) // a phantom validator
-		if atk == "lunaticbig" {      // the encoded evidence exceeds 16 KiB
+		cvs = append(cvs, cv{900, 1, -1}) // a phantom validator
+		if atk == "lunaticbig" {          // the encoded evidence exceeds 16 KiB
 			for k := 0; k < 130; k++ {
-				cvs = append(cvs, cv{300 + k, 1})
+				cvs = append(cvs, cv{300 + k, 1, -1})
 			}
 		}
+	case "forge":
+		// a forger without any validator key: copies the honest header (other DataHash), signs with his
+		// own keys and presents a validator set carrying the honest ADDRESSES and powers next to HIS
+		// public keys. The set does not hash to the header's ValidatorsHash (ValidateBasic fails).
+		if !ownVals(cfh) {
+			return nil, false
+		}
+		for i := range cvs {
+			cvs[i].aki = cvs[i].ki
+			cvs[i].ki = 10 + i%10
+		}
+		hd.DataHash = fixed(0xDB)
 	case "equiv":
 		if !ownVals(cfh) {
 			return nil, false
@@ -629,7 +647,10 @@ func (c *chain) buildLCA(m map[string]string) (*types.LightClientAttackEvidence,
 	for i, v := range cvs {
 		pk := privKey(v.ki).PubKey()
 		vals[i] = types.NewValidator(pk, v.power)
-		byAddr[string(pk.Address())] = v.ki
+		if v.aki >= 0 {
+			vals[i].Address = privKey(v.aki).PubKey().Address()
+		}
+		byAddr[string(vals[i].Address)] = v.ki
 	}
 	cvals := types.NewValidatorSet(vals)
 	if (atk == "lunatic" || atk == "lunaticbig") && mut != "d0" {
